@@ -848,3 +848,24 @@ func storJob(r *vlib.RNG, idx int, base string, emitK bool, count func(string, i
 	}
 	return
 }
+
+// packWrapProbe: memStorage keys its files by packFile(fd) = uint64(fd.Num)<<4 | uint64(fd.Type), which drops the top four
+// bits of the number: two valid descriptors whose numbers differ by a multiple of 2^60 name the same file (D4 of
+// Props/C18M.v; recorded as a known finding, file numbers never get that large outside a forged manifest).
+func packWrapProbe() string {
+	ms := storage.NewMemStorage()
+	a := storage.FileDesc{Type: storage.TypeTable, Num: 5}
+	b := storage.FileDesc{Type: storage.TypeTable, Num: 5 + 1<<60}
+	w, err := ms.Create(a)
+	if err != nil {
+		return ""
+	}
+	w.Write([]byte("A"))
+	w.Close()
+	r, err := ms.Open(b)
+	if err != nil {
+		return ""
+	}
+	r.Close()
+	return fmt.Sprintf("memStorage: Create(%v) then Open(%v) succeeds: packFile shifts the number left by 4 bits in a uint64, descriptors whose numbers differ by 2^60 share one file (and List reports the number modulo 2^60)", a, b)
+}
